@@ -395,6 +395,8 @@ func goParse(src string) (res J, p *path.Path) {
 	return J{"out": "ok", "ast": encAST(pp.AST), "str": pp.String()}, pp
 }
 
+const glueEarlier = `strict $."earlier"[0]`
+
 // parseGlue checks what C02/C04 say about the functions wrapped around parser.Parse and
 // AST.String, which the Lean model does not contain: error wrapping, MustParse, Scan,
 // Marshal/Unmarshal Text/Binary, Value, IsPredicate/PgIndexOperator. "" = all as stated.
@@ -458,6 +460,24 @@ func parseGlue(src string, pp *path.Path, err error) (what string) {
 	}
 	if v, e := pp.Value(); e != nil || v != any(str) {
 		return "Value differs from String"
+	}
+	// reading into a variable that already holds a path must not change copies made earlier
+	{
+		var dst path.Path
+		if dst.Scan(glueEarlier) == nil {
+			kept := dst // by-value copy, as `out = append(out, p)` in a rows.Next() loop
+			before := kept.String()
+			_ = dst.Scan(src)
+			if kept.String() != before || kept.IsPredicate() {
+				return "a by-value copy of a Path changed when its source variable was scanned again"
+			}
+			kept2 := dst
+			before2 := kept2.String()
+			_ = dst.UnmarshalText([]byte(glueEarlier))
+			if kept2.String() != before2 {
+				return "a by-value copy of a Path changed when its source variable was unmarshalled again"
+			}
+		}
 	}
 	if pp.IsPredicate() != pp.AST.IsPredicate() {
 		return "IsPredicate differs from the AST's flag"
